@@ -8,7 +8,7 @@
 //! model after the acknowledged prefix (or that prefix plus the complete in-flight request).
 
 use crate::model::{Cid, Config, Model, Sid, NIL};
-use crate::sut::{client_uuid, dump_api, dump_sql_raw, write_dir_image, DirImage, Req, Resp, Scratch, Sut, SymOp, SymSut, DB_FILE, SQL_HTTP, SQL_LIB};
+use crate::sut::{client_uuid, dump_api, dump_sql_raw, read_dir_image, write_dir_image, DirImage, Req, Resp, Scratch, Sut, SymOp, SymSut, DB_FILE, SQL_HTTP, SQL_LIB};
 use crate::vfs::{base, LogEntry, Recorder, VfsCall};
 use serde_json::{json, Value};
 use std::collections::{BTreeMap, BTreeSet, HashSet};
@@ -261,7 +261,7 @@ pub fn record(hist: &[COp], seed: u64) -> Result<Recorded, String> {
     }
     drop(held);
     crate::vfs::set_hook(None);
-    let final_files = crate::sut::read_dir_image(&dir);
+    let final_files = read_dir_image(&dir);
     let log = rec.take();
     Ok(Recorded { log, models, tab: s.tab.clone(), final_files, ops })
 }
@@ -418,6 +418,31 @@ pub fn recover(img: &DirImage, seed: u64, known_ids: &[Uuid], epilogue: bool) ->
     Ok(out)
 }
 
+/// Recovery as an operator gets it: the real executable is started on the image, asked for each
+/// client's first version and snapshot over TCP, and killed; what it left behind is then read by
+/// the library recovery. Start-up code that "tidies" the data directory is part of recovery.
+pub fn recover_via_executable(img: &DirImage, seed: u64, known_ids: &[Uuid]) -> Result<Recovered, String> {
+    let scratch = Scratch::new("crash-exec");
+    let dir = scratch.path().join("data");
+    write_dir_image(&dir, img);
+    {
+        let run = crate::ebin::start_plain(&dir).map_err(|e| format!("database does not open through the executable: {e}"))?;
+        for c in 0..2u8 {
+            let cu = client_uuid(seed, c);
+            for path in [format!("/v1/client/get-child-version/{}", Uuid::nil()), "/v1/client/snapshot".to_string()] {
+                match crate::ebin::http_raw(&run.addrs[0], "GET", &path, &[("X-Client-Id", cu.to_string())], None, false) {
+                    Ok(r) if r.status >= 500 => return Err(format!("the restarted executable answered {} to GET {path}", r.status)),
+                    Ok(_) => {}
+                    Err(e) => return Err(format!("the restarted executable did not answer GET {path}: {e}")),
+                }
+            }
+        }
+        // killed, not stopped
+    }
+    let after = read_dir_image(&dir);
+    recover(&after, seed, known_ids, false)
+}
+
 /// Above this many unsynced writes at a crash point the adversary is reduced to single
 /// deviations (see `explore`).
 pub const LONG_EPOCH: usize = 64;
@@ -429,10 +454,14 @@ pub struct CrashParams {
     pub subset_cap_log2: usize,
     pub torn: bool,
     pub seed: u64,
+    /// which images are also recovered through the start-up path of the real executable:
+    /// 0 none, 1 process-crash images, 2 every image
+    pub via_exec: u8,
 }
 
 #[derive(Default)]
 pub struct CrashStats {
+    pub exec_recoveries: u64,
     pub log_len: usize,
     pub crash_points: u64,
     pub images: u64,
@@ -624,6 +653,24 @@ pub fn explore(rec: &Recorded, p: &CrashParams, part: usize, parts: usize) -> (C
                     findings.push(CrashFinding { class: format!("{class}|{}", label.split(' ').next().unwrap_or("")), msg: format!("{msg} — {where_}"), point, image: label });
                 }
                 Ok(got) => {
+                    if p.via_exec == 2 || (p.via_exec == 1 && label.starts_with("process")) {
+                        st.exec_recoveries += 1;
+                        match recover_via_executable(&img, p.seed, &known_ids) {
+                            Ok(g2) if g2 == got => {}
+                            Ok(g2) => findings.push(CrashFinding {
+                                class: format!("executable-start-up-changes-what-is-recovered|{}", label.split(' ').next().unwrap_or("")),
+                                msg: format!("the library recovers {:?} from this image, but after the real executable was started on it (and killed) {:?} is left — {where_}", summarize(&got), summarize(&g2)),
+                                point,
+                                image: label.clone(),
+                            }),
+                            Err(m2) => findings.push(CrashFinding {
+                                class: format!("executable-start-up-breaks-recovery|{}", label.split(' ').next().unwrap_or("")),
+                                msg: format!("the library recovers {:?} from this image, but through the real executable: {m2} — {where_}", summarize(&got)),
+                                point,
+                                image: label.clone(),
+                            }),
+                        }
+                    }
                     if got == *allowed[0] {
                         st.recovered_before += 1;
                     } else if allowed.len() > 1 && got == *allowed[1] {
@@ -719,7 +766,7 @@ pub fn worker_main() {
         let seed = pv["seed"].as_u64().unwrap_or(1);
         move |task: &Value| -> Value {
             let hist: Vec<COp> = task["hist"].as_array().map(|a| a.iter().filter_map(|x| COp::parse(x.as_str().unwrap_or(""))).collect()).unwrap_or_default();
-            let p = CrashParams { pair_limit: task["pair_limit"].as_u64().unwrap_or(16) as usize, subset_cap_log2: task["cap"].as_u64().unwrap_or(8) as usize, torn: task["torn"].as_bool().unwrap_or(false), seed };
+            let p = CrashParams { pair_limit: task["pair_limit"].as_u64().unwrap_or(16) as usize, subset_cap_log2: task["cap"].as_u64().unwrap_or(8) as usize, torn: task["torn"].as_bool().unwrap_or(false), seed, via_exec: task["via_exec"].as_u64().unwrap_or(0) as u8 };
             let part = task["part"].as_u64().unwrap_or(0) as usize;
             let parts = task["parts"].as_u64().unwrap_or(1) as usize;
             let r = std::panic::catch_unwind(std::panic::AssertUnwindSafe(|| {
@@ -730,7 +777,7 @@ pub fn worker_main() {
                 Ok(Ok((st, f, conf))) => json!({
                     "log_len": st.log_len, "crash_points": st.crash_points, "images": st.images, "distinct_images": st.distinct_images,
                     "process_images": st.process_images, "power_images": st.power_images, "torn_images": st.torn_images,
-                    "recovered_before": st.recovered_before, "recovered_after": st.recovered_after, "bounded_points": st.bounded_points, "long_epoch_points": st.long_epoch_points, "max_pending": st.max_pending,
+                    "recovered_before": st.recovered_before, "recovered_after": st.recovered_after, "bounded_points": st.bounded_points, "long_epoch_points": st.long_epoch_points, "max_pending": st.max_pending, "exec_recoveries": st.exec_recoveries,
                     "conformance_error": conf,
                     "findings": f.iter().map(|x| json!({"class": x.class, "msg": x.msg, "point": x.point, "image": x.image})).collect::<Vec<_>>(),
                 }),
